@@ -61,6 +61,7 @@ class Obs:
         self.lost_not_closed: list[str] = []
         self.lost_events: list[dict[str, Any]] = []   # end-of-instant facts about every transport whose connection_lost was delivered
         self.stall: dict[str, Any] = {}
+        self.peer_disc_handed_over: list[dict[str, Any]] = []   # iteration-boundary facts: a well-formed DisconnectRequest has been read from the socket
         self.session_tag: dict[int, str] = {}   # connection idx -> tag of the stop callback the application passed when it opened that session
 
     def signature(self) -> str:
@@ -536,6 +537,20 @@ class Runner:
             o = v.obj
             if o.is_connected != (o.connection_state.name == "CONNECTED"):
                 self.obs.invariant_breaks.append(f"iter {sim.iter}: is_connected={o.is_connected} state={o.connection_state.name}")
+        # boundary observation: the client's socket has handed over the device's stream up to and including a well-formed DisconnectRequest frame,
+        # and at the end of that loop iteration the connection is still CONNECTED - the device's request reached the library before the close
+        for dc in (self.dev.conns if self.dev is not None else []):
+            done = getattr(dc, "_vf_disc_seen", 0)
+            while done < len(dc.disc_req_ends) and dc.sock.rx_consumed >= dc.disc_req_ends[done][0]:
+                end, put_seq = dc.disc_req_ends[done]
+                done += 1
+                tr = [t for t in sim.transports if t._fake is dc.sock]  # noqa: SLF001
+                c = tr[-1]._sim_conn if tr else None  # noqa: SLF001
+                view = next((v for v in sim.conns if v.obj is c), None)
+                if view is not None and view.connected_seq is not None and view.connected_seq < put_seq \
+                        and not any(view.connected_seq < x < put_seq for x in dc.taints):
+                    self.obs.peer_disc_handed_over.append({"conn": view.idx, "seq": sim.next_seq(), "state": c.connection_state.name, "t": sim.clock})
+            dc._vf_disc_seen = done  # type: ignore[attr-defined]
         # a transport whose connection_lost was delivered is a close cause: at the end of that instant the connection must be CLOSED
         if sim.end_of_instant():
             for t in sim.transports:
